@@ -34,7 +34,8 @@ fn gen(rng: &mut Rng, len: usize) -> Vec<Api> {
       continue;
     }
     let r = rng.below(100);
-    out.push(if r < 42 {
+    let double_commit = rng.chance(1, 2);
+    let next = if r < 42 {
       call += 1;
       ver += 1;
       Api::Add(1, call, rng.below(IDS.len() as u64), ver)
@@ -42,6 +43,8 @@ fn gen(rng: &mut Rng, len: usize) -> Vec<Api> {
       call += 1;
       Api::Del(1, call, rng.below(IDS.len() as u64))
     } else if r < 80 {
+      // a commit is often followed at once by another one: a no-op in the fault-free run, but the
+      // retry of the same handle (same queue, same cached state) when the first one was faulted
       Api::Commit(1)
     } else if r < 85 {
       Api::Rollback(1)
@@ -50,7 +53,14 @@ fn gen(rng: &mut Rng, len: usize) -> Vec<Api> {
       Api::Drop(1)
     } else {
       Api::Compact
-    });
+    };
+    // a commit is often followed at once by another one: a no-op in the fault-free run, but the
+    // retry of the same handle (same queue, same cached state) when the first one was faulted
+    let again = matches!(next, Api::Commit(_)) && double_commit;
+    out.push(next);
+    if again {
+      out.push(Api::Commit(1));
+    }
   }
   out
 }
@@ -174,7 +184,7 @@ fn main() {
   let (mut n_hist, mut n_single, mut n_double, mut n_fired_err, mut n_fired_ok) = (0usize, 0usize, 0usize, 0usize, 0usize);
   for _ in 0..args.n {
     n_hist += 1;
-    let len = if thorough { 8 + rng.below(18) as usize } else { 6 + rng.below(12) as usize };
+    let len = if thorough { 10 + rng.below(24) as usize } else { 10 + rng.below(14) as usize };
     let hist = gen(&mut rng, len);
     let base = run(&hist, &[]);
     let n = base.calls;
